@@ -53,6 +53,11 @@ CHECKS = {
    text="All 256 PeriodType values for every single-length constructor and MA kind, all 65 536 pairs for the two-parameter methods (thorough), boundary sets for weights/brick sizes/periods/initial values, every configuration field of every indicator through all 256 periods / float boundary set / MA kinds x boundary lengths (other fields default and generated), generated valid configurations on generated streams, and strings for Source/MA/set(): never a panic, !validate => Err, documented-too-small => Err, accepted instances survive valid streams with flat, high==low and zero-volume stretches.",
    note="Panics are observed with debug-assertions and overflow-checks ON (as the repository's tests run). One known finding (CoppockCurve + SMM + zero-volume source) is listed in known_findings.txt; 8 fix: commits removed the others.",
    ref="DESIGN.md §5 C10"),
+ "C11": dict(
+   technique="PBT with a serde-diff frame-condition oracle for set(), static-vs-dyn differential, result-shape invariant on every step",
+   text="For all 37 indicators: generated configurations, sequences of set(name, text) with own/foreign/near-miss/random names and typed/boundary/garbage texts judged by 'exactly the named key changes to the independently parsed value, else Err and unchanged' on the serialized configuration, with the Box<dyn IndicatorConfigDyn> twin in lock-step; result shape = size() at every step of generated streams; name() = NAME = frozen table for config/instance/dyn; dyn init/next/over bit-identical to static; defaults validate, initialise and accept their own values; IndicatorResult::new truncation model.",
+   note="Trusted: serde_json view of the configuration (all fields pub), std parsers and the C18 grammar oracles as the independent parse.",
+   ref="DESIGN.md §5 C11"),
 }
 
 PENDING = {
